@@ -19,7 +19,7 @@ import (
 )
 
 type opT struct {
-	Kind string  `json:"kind"` // ins | upd | del
+	Kind string  `json:"kind"` // ins | upd | del | updn (UPDATE of the non-indexed column only)
 	ID   int     `json:"id"`   // value of the id / n column
 	PK   string  `json:"pk,omitempty"` // for string-PK tables
 	Doc  *string `json:"doc"`  // new document (ins/upd); nil = NULL
@@ -31,11 +31,13 @@ type caseT struct {
 	Ops     []opT    `json:"ops"`
 	Queries []string `json:"queries"`
 	Unicode bool     `json:"unicode,omitempty"` // implementation-only (not ASCII)
+	Extra   bool     `json:"extra,omitempty"`   // the table has an additional non-indexed column n
+	TabColl string   `json:"tabcoll,omitempty"` // table default collation (differs from the column's)
 }
 
 var vocab = []string{"alpha", "beta", "gamma", "Gamma", "GAMMA", "delta", "don't", "o'clock", "it's", "ab", "x1", "x12", "foo_bar",
-	"2024", "a1b2c3", "stop", "Stop", "word", "the", "of", "café", "naïve", "日本語", "über"}
-var asciiVocab = vocab[:20]
+	"2024", "a1b2c3", "stop", "Stop", "word", "Apple", "apple", "APPLE", "café", "naïve", "日本語", "über"}
+var asciiVocab = vocab[:21]
 var seps = []string{" ", " ", " ", ", ", ". ", "-", "  ", "'", "''", "! ", "\t", " '", "' "}
 
 func genDoc(r *lib.RNG, uni bool) *string {
@@ -70,6 +72,15 @@ func gen(r *lib.RNG) caseT {
 	if r.Chance(1, 8) {
 		cs.Unicode, cs.CI = true, false
 	}
+	cs.Extra = r.Chance(1, 2)
+	if r.Chance(1, 3) {
+		// the table's default collation differs from the FULLTEXT column's
+		if cs.CI {
+			cs.TabColl = "utf8mb4_0900_bin"
+		} else {
+			cs.TabColl = "utf8mb4_0900_ai_ci"
+		}
+	}
 	nops := r.Range(3, 10)
 	pks := []string{"a", "ab", "b", "k1", "k2"}
 	for i := 0; i < nops; i++ {
@@ -79,10 +90,19 @@ func gen(r *lib.RNG) caseT {
 		switch {
 		case k < 5:
 			o.Kind, o.Doc = "ins", genDoc(r, cs.Unicode)
+		case k < 7:
+			o.Kind, o.Doc = "upd", genDoc(r, cs.Unicode)
+		case k < 8 && cs.Extra:
+			o.Kind = "updn"
 		case k < 8:
 			o.Kind, o.Doc = "upd", genDoc(r, cs.Unicode)
 		default:
 			o.Kind = "del"
+			if r.Chance(1, 2) && i+1 < nops { // delete then re-insert the same id with a new document
+				cs.Ops = append(cs.Ops, o)
+				o = opT{Kind: "ins", ID: o.ID, PK: o.PK, Doc: genDoc(r, cs.Unicode)}
+				i++
+			}
 		}
 		cs.Ops = append(cs.Ops, o)
 	}
@@ -94,6 +114,9 @@ func gen(r *lib.RNG) caseT {
 		}
 		if r.Chance(1, 3) {
 			q += lib.Pick(r, seps) + lib.Pick(r, asciiVocab)
+		}
+		if r.Chance(1, 6) {
+			q = "Apple apple"
 		}
 		if r.Chance(1, 5) {
 			q = strings.ToUpper(q)
@@ -150,6 +173,7 @@ type trow struct {
 	id  int
 	pk  string
 	doc *string
+	n   int
 }
 
 func sqlStr(s *string) string {
@@ -160,17 +184,28 @@ func sqlStr(s *string) string {
 }
 
 func (cs caseT) ddl(name string) string {
-	coll := ""
+	coll := " COLLATE utf8mb4_0900_bin"
 	if cs.CI {
 		coll = " COLLATE utf8mb4_0900_ai_ci"
 	}
+	if cs.TabColl == "" && !cs.CI {
+		coll = ""
+	}
+	x := ""
+	if cs.Extra {
+		x = "n INT, "
+	}
+	opt := ""
+	if cs.TabColl != "" {
+		opt = " COLLATE " + cs.TabColl
+	}
 	switch cs.Table {
 	case "intpk":
-		return fmt.Sprintf("CREATE TABLE %s (id INT PRIMARY KEY, doc TEXT%s, FULLTEXT idx (doc))", name, coll)
+		return fmt.Sprintf("CREATE TABLE %s (id INT PRIMARY KEY, %sdoc TEXT%s, FULLTEXT idx (doc))%s", name, x, coll, opt)
 	case "strpk":
-		return fmt.Sprintf("CREATE TABLE %s (pk VARCHAR(20) COLLATE utf8mb4_0900_bin PRIMARY KEY, doc TEXT%s, FULLTEXT idx (doc))", name, coll)
+		return fmt.Sprintf("CREATE TABLE %s (pk VARCHAR(20) COLLATE utf8mb4_0900_bin PRIMARY KEY, %sdoc TEXT%s, FULLTEXT idx (doc))%s", name, x, coll, opt)
 	}
-	return fmt.Sprintf("CREATE TABLE %s (id INT, doc TEXT%s, FULLTEXT idx (doc))", name, coll)
+	return fmt.Sprintf("CREATE TABLE %s (id INT, %sdoc TEXT%s, FULLTEXT idx (doc))%s", name, x, coll, opt)
 }
 
 func (cs caseT) keyOf(r trow) string {
@@ -180,10 +215,14 @@ func (cs caseT) keyOf(r trow) string {
 	return fmt.Sprintf("i:%d", r.id)
 }
 func (cs caseT) insertSQL(name string, r trow) string {
-	if cs.Table == "strpk" {
-		return fmt.Sprintf("INSERT INTO %s VALUES ('%s', %s)", name, r.pk, sqlStr(r.doc))
+	x := ""
+	if cs.Extra {
+		x = fmt.Sprintf("%d, ", r.n)
 	}
-	return fmt.Sprintf("INSERT INTO %s VALUES (%d, %s)", name, r.id, sqlStr(r.doc))
+	if cs.Table == "strpk" {
+		return fmt.Sprintf("INSERT INTO %s VALUES ('%s', %s%s)", name, r.pk, x, sqlStr(r.doc))
+	}
+	return fmt.Sprintf("INSERT INTO %s VALUES (%d, %s%s)", name, r.id, x, sqlStr(r.doc))
 }
 func (cs caseT) where(o opT) string {
 	if cs.Table == "strpk" {
@@ -196,10 +235,16 @@ func (cs caseT) sqlRow(r trow) sql.Row {
 	if r.doc != nil {
 		d = *r.doc
 	}
+	var row sql.Row
 	if cs.Table == "strpk" {
-		return sql.Row{r.pk, d}
+		row = sql.Row{r.pk}
+	} else {
+		row = sql.Row{int32(r.id)}
 	}
-	return sql.Row{int32(r.id), d}
+	if cs.Extra {
+		row = append(row, int32(r.n))
+	}
+	return append(row, d)
 }
 
 var ctx = sql.NewEmptyContext()
@@ -290,7 +335,7 @@ func run1(c *lib.Ctx, cs caseT) {
 		}
 		switch o.Kind {
 		case "ins":
-			nr := trow{o.ID, o.PK, o.Doc}
+			nr := trow{id: o.ID, pk: o.PK, doc: o.Doc, n: 0}
 			res := s.Query(cs.insertSQL("t", nr))
 			if res.Err != nil {
 				c.Count("op/insert-rejected:" + eng.ErrKind(res.Err))
@@ -299,6 +344,21 @@ func run1(c *lib.Ctx, cs caseT) {
 			c.Count("op/insert")
 			rows = append(rows, nr)
 			coqOps = append(coqOps, "OIns "+coqRow(nr))
+		case "updn":
+			res := s.Query(fmt.Sprintf("UPDATE t SET n = n + 1 WHERE %s", cs.where(o)))
+			if res.Err != nil {
+				c.Count("op/update-error:" + eng.ErrKind(res.Err))
+				continue
+			}
+			for i := range rows {
+				if match(rows[i]) {
+					nr := rows[i]
+					nr.n++
+					coqOps = append(coqOps, fmt.Sprintf("OUpd %s %s", coqRow(rows[i]), coqRow(nr)))
+					c.Count("op/update-other-column-only")
+					rows[i] = nr
+				}
+			}
 		case "upd":
 			res := s.Query(fmt.Sprintf("UPDATE t SET doc = %s WHERE %s", sqlStr(o.Doc), cs.where(o)))
 			if res.Err != nil {
@@ -309,8 +369,11 @@ func run1(c *lib.Ctx, cs caseT) {
 				if match(rows[i]) {
 					nr := rows[i]
 					nr.doc = o.Doc
-					same := (nr.doc == nil && rows[i].doc == nil) || (nr.doc != nil && rows[i].doc != nil && *nr.doc == *rows[i].doc)
-					if !same { // the engine skips rows whose values do not change
+					same := (nr.doc == nil && rows[i].doc == nil) || (nr.doc != nil && rows[i].doc != nil && fold(*nr.doc, cs.CI) == fold(*rows[i].doc, cs.CI))
+					if same { // the engine skips rows whose values compare equal under the column collation
+						nr.doc = rows[i].doc
+					}
+					if !same {
 						coqOps = append(coqOps, fmt.Sprintf("OUpd %s %s", coqRow(rows[i]), coqRow(nr)))
 						c.Count("op/update-row")
 					}
@@ -357,7 +420,11 @@ func run1(c *lib.Ctx, cs caseT) {
 	var qs []qobs
 	qfail := ""
 	for _, q := range cs.Queries {
-		res := s.Query(fmt.Sprintf("SELECT %s, doc FROM t WHERE MATCH(doc) AGAINST (%s)", idCol, sqlStr(&q)))
+		nCol := "0"
+		if cs.Extra {
+			nCol = "n"
+		}
+		res := s.Query(fmt.Sprintf("SELECT %s, doc, %s FROM t WHERE MATCH(doc) AGAINST (%s)", idCol, nCol, sqlStr(&q)))
 		if res.Err != nil {
 			qfail = fmt.Sprintf("MATCH AGAINST(%q) failed: %v", q, res.Err)
 			break
@@ -374,6 +441,7 @@ func run1(c *lib.Ctx, cs caseT) {
 				d := fmt.Sprint(row[1])
 				r.doc = &d
 			}
+			fmt.Sscan(fmt.Sprint(row[2]), &r.n)
 			o.keys = append(o.keys, kid(r))
 			o.raw = append(o.raw, fmt.Sprintf("%v|%s", row[0], sqlStr(r.doc)))
 		}
@@ -472,6 +540,39 @@ func run1(c *lib.Ctx, cs caseT) {
 		}
 	}
 
+	// predicate 3: WHERE MATCH agrees with the relevance projection (MATCH ... AGAINST in the select list > 0)
+	for _, o := range qs {
+		c.PredChecked()
+		nCol := "0"
+		if cs.Extra {
+			nCol = "n"
+		}
+		res := s.Query(fmt.Sprintf("SELECT %s, doc, %s, MATCH(doc) AGAINST (%s) FROM t", idCol, nCol, sqlStr(&o.q)))
+		if res.Err != nil {
+			c.PredFail(id, "match-projection-error", fmt.Sprintf("MATCH AGAINST(%q) in the select list failed: %v", o.q, res.Err), cs)
+			continue
+		}
+		var proj []string
+		for _, row := range res.Rows {
+			rel, _ := row[3].(float32)
+			if f64, ok := row[3].(float64); ok {
+				rel = float32(f64)
+			}
+			if rel > 0 {
+				var d *string
+				if row[1] != nil {
+					x := fmt.Sprint(row[1])
+					d = &x
+				}
+				proj = append(proj, fmt.Sprintf("%v|%s", row[0], sqlStr(d)))
+			}
+		}
+		sort.Strings(proj)
+		if strings.Join(dedup(proj), "\n") != strings.Join(dedup(o.raw), "\n") {
+			c.PredFail(id, "where-match-differs-from-relevance-projection/"+cs.Table, fmt.Sprintf("MATCH(doc) AGAINST(%q): WHERE returns %q, rows with relevance > 0: %q", o.q, dedup(o.raw), dedup(proj)), cs)
+		}
+	}
+
 	// predicate 2: the index tables equal those of a twin table loaded with the final rows only
 	c.PredChecked()
 	s.MustExec(cs.ddl("w"))
@@ -563,6 +664,13 @@ func main() {
 			{Table: "keyless", CI: false, Ops: []opT{{Kind: "ins", ID: 1, Doc: sp("alpha beta")}, {Kind: "ins", ID: 1, Doc: sp("alpha beta")},
 				{Kind: "ins", ID: 2, Doc: sp("beta gamma")}, {Kind: "upd", ID: 1, Doc: sp("gamma delta")}, {Kind: "del", ID: 2}},
 				Queries: []string{"alpha", "gamma", "beta"}},
+			{Table: "intpk", CI: false, Extra: true, Ops: []opT{{Kind: "ins", ID: 1, Doc: sp("alpha beta")}, {Kind: "ins", ID: 2, Doc: sp("beta gamma")},
+				{Kind: "updn", ID: 1}, {Kind: "updn", ID: 1}, {Kind: "del", ID: 1}, {Kind: "ins", ID: 1, Doc: sp("delta word")}},
+				Queries: []string{"alpha", "delta", "beta"}},
+			{Table: "intpk", CI: false, TabColl: "utf8mb4_0900_ai_ci", Ops: []opT{{Kind: "ins", ID: 1, Doc: sp("Apple pie")}, {Kind: "ins", ID: 2, Doc: sp("apple tart")},
+				{Kind: "ins", ID: 3, Doc: sp("APPLE")}}, Queries: []string{"Apple apple", "apple", "APPLE pie"}},
+			{Table: "intpk", CI: true, TabColl: "utf8mb4_0900_bin", Ops: []opT{{Kind: "ins", ID: 1, Doc: sp("Apple pie")}, {Kind: "ins", ID: 2, Doc: sp("apple tart")}},
+				Queries: []string{"Apple apple", "APPLE"}},
 			{Table: "strpk", CI: false, Ops: []opT{{Kind: "ins", PK: "a", Doc: sp("bcdef hello")}, {Kind: "ins", PK: "ab", Doc: sp("cdef hello")}},
 				Queries: []string{"cdef", "hello"}},
 		}
